@@ -115,6 +115,7 @@ typedef struct { void *p; const char *name; int is_rw; } lockrec_t;
 static lockrec_t locks[MAXLOCK];
 static int nlocks = 0;
 static long edge_cnt[MAXLOCK][MAXLOCK];
+static long edge_cnt_run[MAXLOCK][MAXLOCK];   /* observed while the library was running (armed) or on a library thread */
 static char edge_wit[MAXLOCK][MAXLOCK][48];
 static long rec_rd_cnt = 0;
 atomic_long mon_lock_ops = 0;
@@ -211,6 +212,9 @@ NOINST static void after_acquire(void *lk, int mode, int ok) {
 			int a = t->held[i].li;
 			if (a != li) {
 				if (edge_cnt[a][li]++ == 0) { strncpy(edge_wit[a][li], hx_curcall, 47); }
+				if (mon_armed || hx_role == ROLE_RECEIVER || hx_role == ROLE_AUTOFLUSH || hx_role == ROLE_HEARTBEAT || hx_role == ROLE_WORKER) {
+					if (edge_cnt_run[a][li]++ == 0) strncpy(edge_wit[a][li], hx_curcall, 47);
+				}
 			}
 		}
 		if (t->nheld < MAXHELD) { t->held[t->nheld].lock = lk; t->held[t->nheld].li = li; t->held[t->nheld].mode = mode; t->nheld++; }
@@ -354,7 +358,7 @@ NOINST void mon_report_edges(void) {
 	k += snprintf(buf + k, cap - k, "[");
 	int first = 1;
 	for (int a = 0; a < nlocks; a++) for (int b = 0; b < nlocks; b++) if (edge_cnt[a][b] && k + 256 < cap) {
-		k += snprintf(buf + k, cap - k, "%s[\"%s\",\"%s\",%ld,\"%s\"]", first ? "" : ",", locks[a].name, locks[b].name, edge_cnt[a][b], edge_wit[a][b]);
+		k += snprintf(buf + k, cap - k, "%s[\"%s\",\"%s\",%ld,\"%s\",%ld]", first ? "" : ",", locks[a].name, locks[b].name, edge_cnt[a][b], edge_wit[a][b], edge_cnt_run[a][b]);
 		first = 0;
 	}
 	snprintf(buf + k, cap - k, "]");
